@@ -25,6 +25,8 @@ var universe = []RS{
 	{ResourceType: "repository", Resource: "b", Action: "pull"},
 	{ResourceType: "registry", Resource: "catalog", Action: "*"},
 	{ResourceType: "repository", Resource: "a", Action: "delete"},
+	// an unknown action that sorts between the two known ones
+	{ResourceType: "repository", Resource: "a", Action: "pulls"},
 	{ResourceType: "other", Resource: "x", Action: "y"},
 	{ResourceType: "foo"},
 	{ResourceType: "repository", Resource: "", Action: "pull"},
@@ -268,7 +270,7 @@ func main() {
 		"large universe: random sets over arbitrary field bytes, pairs drawn from a shared pool. distinct_nontrivial = distinct (|S| class, |T| class, relation between S and T, construction) shapes + distinct member-class combinations; trivial = both sets empty.")
 	run.Assume("round-trip (print then parse) is asserted only where every member has non-empty fields free of whitespace, ':' and ',' or is an opaque one-word scope")
 
-	n := run.N(9, 12)
+	n := run.N(10, 13)
 	U := universe[:n]
 	probes := append(append([]RS{}, universe...), outside...)
 	nsub := 1 << n
@@ -405,7 +407,7 @@ func main() {
 	// large universe, arbitrary field bytes
 	nr := run.N(60000, 1000000)
 	rng := run.Rand(99)
-	alphabet := []string{"", "a", "b", "repository", "registry", "catalog", "*", "pull", "push", "x:y", "a,b", " ", "p q", "\x00", "é", "delete", "A"}
+	alphabet := []string{"", "a", "b", "repository", "registry", "catalog", "*", "pull", "push", "x:y", "a,b", " ", "p q", "\x00", "é", "delete", "A", "pulls", "pus", "pull2", "pul", "pusha"}
 	randRS := func() RS {
 		f := func() string { return alphabet[rng.IntN(len(alphabet))] }
 		switch rng.IntN(6) {
